@@ -3,6 +3,7 @@
    of text nodes and attribute values, for every string of code points. Statements only; proofs in XmlTextProofs.v. *)
 From Coq Require Import ZArith List Bool.
 From EP Require Import C17.XmlText C17.XmlTextProofs.
+From EP Require Gen.C17Shape.
 Import ListNotations.
 Open Scope Z_scope.
 
@@ -31,3 +32,9 @@ Example C17_xml_attribute_normalisation :
   read_text [38; 35; 120; 49; 70; 54; 48; 48; 59; 38; 97; 112; 111; 115; 59] = Some [128512; 39] /\
   read_text [38; 35; 48; 59] = None /\ read_text [97; 60] = None.
 Proof. repeat split; reflexivity. Qed.
+
+(* the statements of /repo behind the serialization checks (serialize_to_xml drops the tail on a copy, deep_equal compares the
+   element and text children exactly, escape_json_string scans escaped strings) are present in the source as read on this run *)
+Theorem C17_source_shape : Gen.C17Shape.shape_ok = true.
+Proof. reflexivity. Qed.
+Print Assumptions C17_source_shape.
